@@ -75,7 +75,9 @@ pub fn for_each<F: FnMut(&mut Ctx, &SItem)>(ctx: &mut Ctx, corp: &Corpus, quick:
             Some(d) => d.clone(),
             None => inflate_raw(&g.raw, &RefOpts::zlib()).out().clone(),
         };
-        let kinds: Vec<(WrapKind, usize)> = if g.raw.len() > 300 {
+        let kinds: Vec<(WrapKind, usize)> = if g.light {
+            vec![(WrapKind::Raw, 0), (WrapKind::Zlib, 0)]
+        } else if g.raw.len() > 300 {
             vec![(WrapKind::Raw, 0), (WrapKind::Zlib, 0), (WrapKind::Gzip, 1)]
         } else if quick {
             vec![(WrapKind::Raw, 0), (WrapKind::Zlib, 0), (WrapKind::Zlib, 1), (WrapKind::Gzip, 0), (WrapKind::Gzip, 2)]
@@ -89,7 +91,7 @@ pub fn for_each<F: FnMut(&mut Ctx, &SItem)>(ctx: &mut Ctx, corp: &Corpus, quick:
                 WrapKind::Zlib => 2,
                 WrapKind::Gzip => wrapped.len() - g.raw.len() - 8,
             };
-            let muts = mutations_for(wrapped.len(), quick, header_len);
+            let muts = if g.light { vec![Mutation::None, Mutation::Append(vec![0]), Mutation::Truncate(wrapped.len() - 1), Mutation::Truncate(wrapped.len() / 2)] } else { mutations_for(wrapped.len(), quick, header_len) };
             let wbs = if all_wb { wb_args(kind, !quick) } else { vec![wb_args(kind, false)[0]] };
             for (mi, m) in muts.iter().enumerate() {
                 let bytes = m.apply(&wrapped);
